@@ -38,6 +38,27 @@ func hangTimeout() time.Duration {
 	return ctl.HangTimeout
 }
 
+// barrier releases n goroutines at (nearly) the same instant: each one reports in and then spins (yielding) on a flag,
+// so none of them is still being woken from a channel while the first one already finishes its script.
+type barrier struct {
+	ready atomic.Int32
+	open  atomic.Bool
+}
+
+func (b *barrier) wait() {
+	b.ready.Add(1)
+	for !b.open.Load() {
+		runtime.Gosched()
+	}
+}
+
+func (b *barrier) release(n int) {
+	for int(b.ready.Load()) < n {
+		runtime.Gosched()
+	}
+	b.open.Store(true)
+}
+
 type stampPair struct{ A, B int64 }
 
 func overlaps(a, b stampPair) bool { return a.A < b.B && b.A < a.B }
